@@ -44,7 +44,7 @@ G_UFB ==
 
 G_HC ==
   /\ ufb = NoUFB
-  /\ \/ \E r \in (IF tip = 0 THEN 0 ELSE 1)..Min(R, tip + 1) : HC_Begin(r) /\ hist' = Append(hist, [op |-> "hc", r |-> r, mode |-> "deep"])
+  /\ \/ \E r \in 0..R : HC_Begin(r) /\ hist' = Append(hist, [op |-> "hc", r |-> r, mode |-> "deep"])
      \/ (HC_Round \/ HC_Summary \/ HC_Block) /\ UNCHANGED hist
 
 \* a single closing step, so that exactly one behaviour is printed per walk
